@@ -1,10 +1,12 @@
 package vh
 
 import (
+	"encoding/binary"
 	"errors"
 	"fmt"
 	"io"
 	"net"
+	"sync/atomic"
 
 	"github.com/caddyserver/caddy/v2"
 	"github.com/mholt/caddy-l4/layer4"
@@ -21,8 +23,13 @@ var errScripted = errors.New("verif: scripted matcher error")
 const RecKey = "verif_rec"
 
 func recOf(cx *layer4.Connection) *Recorder {
-	r, _ := cx.GetVar(RecKey).(*Recorder)
-	return r
+	if r, ok := cx.GetVar(RecKey).(*Recorder); ok {
+		return r
+	}
+	if a := cx.RemoteAddr(); a != nil {
+		return RecByAddr(a.String())
+	}
+	return nil
 }
 
 // VM is the scripted matcher: it asks for At bytes; while fewer are visible it reports
@@ -88,10 +95,12 @@ func (m *VM) Match(cx *layer4.Connection) (bool, error) {
 //	        back without terminal handler, handler error or fallback it records Abort
 //	fb    : placed after a subroute handler: records Fallback(l, vis), calls next
 type VH struct {
-	K string `json:"k"`
-	N int    `json:"n,omitempty"`
-	L int    `json:"l,omitempty"`
-	R int    `json:"r,omitempty"`
+	K    string `json:"k"`
+	N    int    `json:"n,omitempty"`
+	L    int    `json:"l,omitempty"`
+	R    int    `json:"r,omitempty"`
+	Buf  int    `json:"buf,omitempty"`
+	Echo bool   `json:"echo,omitempty"`
 }
 
 func (*VH) CaddyModule() caddy.ModuleInfo {
@@ -158,12 +167,99 @@ func ListEnded(rec *Recorder, before int) (string, bool) {
 	return "full", true
 }
 
+// association ids of the "udp" handler kind
+var assocCounter atomic.Int64
+
+func ResetAssocCounter() { assocCounter.Store(0) }
+
+// UDPGate, when set, is called by the "udp" handler after each datagram and before it
+// returns; it lets a scheduler hold the handler goroutine at those points.
+var UDPGate func(point string, a int, client string)
+
+// handleUDP is the recording handler for virtual UDP connections: it announces a new
+// association, reads up to N datagrams (each possibly in several pieces when its buffer is
+// smaller than the datagram), optionally replies, and returns.
+func (h *VH) handleUDP(cx *layer4.Connection, rec *Recorder) error {
+	a := int(assocCounter.Add(1))
+	client := ClientOfAddr(cx.RemoteAddr())
+	rec.Add(Ev{"e": "New", "a": a, "c": client})
+	bufSize := h.Buf
+	if bufSize < DgMin {
+		bufSize = 9000
+	}
+	buf := make([]byte, bufSize)
+	whole := 0
+	for whole < h.N {
+		if g := UDPGate; g != nil {
+			g("read", a, client)
+		}
+		// first piece of a datagram
+		n, err := cx.Read(buf)
+		if err != nil || n == 0 {
+			break
+		}
+		c, seq, size, ok := identifyDg(buf[:n])
+		if !ok {
+			rec.Add(Ev{"e": "Dlv", "a": a, "c": "?", "seq": -1, "off": 0, "n": n})
+			whole++
+			continue
+		}
+		off := n
+		intact := true
+		for off < size {
+			n, err = cx.Read(buf)
+			if err != nil || n == 0 {
+				break
+			}
+			for i := 0; i < n; i++ {
+				if off+i >= size || buf[i] != DgByte(c, seq, off+i) {
+					intact = false
+				}
+			}
+			off += n
+		}
+		// one event per datagram: how many bytes of it arrived, and whether they were its own
+		if intact {
+			rec.Add(Ev{"e": "Dlv", "a": a, "c": ClientName(c), "seq": seq, "off": 0, "n": off})
+		} else {
+			rec.Add(Ev{"e": "Dlv", "a": a, "c": "?", "seq": -1, "off": 0, "n": off})
+		}
+		whole++
+		if h.Echo {
+			var out [4]byte
+			binary.BigEndian.PutUint32(out[:], uint32(a))
+			cx.Write(out[:])
+		}
+	}
+	if g := UDPGate; g != nil {
+		g("return", a, client)
+	}
+	rec.Add(Ev{"e": "End", "a": a})
+	return nil
+}
+
+// identifyDg decodes the header of a first piece and checks the filler that follows it.
+func identifyDg(b []byte) (c, seq, size int, ok bool) {
+	c, seq, size, ok = ParseDgHeader(b)
+	if !ok || len(b) > size {
+		return 0, 0, 0, false
+	}
+	for i := 12; i < len(b); i++ {
+		if b[i] != DgByte(c, seq, i) {
+			return 0, 0, 0, false
+		}
+	}
+	return c, seq, size, true
+}
+
 func (h *VH) Handle(cx *layer4.Connection, next layer4.Handler) error {
 	rec := recOf(cx)
 	if rec == nil {
 		return errors.New("verif_h: no recorder on connection")
 	}
 	switch h.K {
+	case "udp":
+		return h.handleUDP(cx, rec)
 	case "mark":
 		rec.Add(Ev{"e": "Handle", "l": h.L, "r": h.R, "vis": len(cx.MatchingBytes()), "pos": rec.Expect})
 		return next.Handle(cx)
@@ -182,6 +278,19 @@ func (h *VH) Handle(cx *layer4.Connection, next layer4.Handler) error {
 			return err
 		}
 		return next.Handle(cx)
+	case "eatrec":
+		// eat for timed runs: records how many bytes it got (one event), then ends the connection
+		segs, err := readRecorded(rec, cx, h.N)
+		n := 0
+		for _, s := range segs {
+			n += s[1] - s[0]
+		}
+		if err != nil {
+			rec.Add(Ev{"e": "HErr", "n": n})
+			return err
+		}
+		rec.Add(Ev{"e": "HRead", "n": n})
+		return nil
 	case "wrap":
 		return next.Handle(cx.Wrap(passConn{cx}))
 	case "enter":
